@@ -11,10 +11,22 @@ has an explicit `crash` value for the places where the Python raises.
 -/
 namespace Emboss.Types
 
-/-- `ExpressionType.which_type`; `unset` = no annotation (the checker gave up). -/
+/-- `Expression.type`: `absent` = the attribute is `None` (the checker gave up before
+creating it: `expr.type.which_type` raises); `unset` = an empty `ExpressionType`
+(`which_type is None`), which is what copying an absent type through a reference yields. -/
 inductive Ty
-  | int | bool | enum (n : Nat) | opaque | unset
+  | int | bool | enum (n : Nat) | opaque | unset | absent
   deriving DecidableEq, Repr
+
+/-- `ir_data_utils.builder(e).type.CopyFrom(other.type)`. -/
+def Ty.copied : Ty → Ty
+  | .absent => .unset
+  | t => t
+
+/-- `reader(e).type.which_type` is truthy. -/
+def Ty.annotated : Ty → Bool
+  | .unset | .absent => false
+  | _ => true
 
 /-- integer, boolean or enumeration: the types a value-level operator can handle. -/
 def Ty.isValue : Ty → Bool
@@ -86,6 +98,9 @@ inductive Crash
   | attrConstBoolExpr  -- attribute_util._is_constant_boolean: None.has_field
   | attrBackEnds       -- attribute_checker._valid_back_ends: None.text
   | attrSignedNotLiteral -- ir_util.get_attribute: assert "Duplicate attribute" (via attribute_checker)
+  | cmpNone            -- type_check._type_check_comparison_operator: None.which_type
+  | chNone             -- type_check._type_check_choice_operator: None.which_type
+  | compatNone         -- type_check._types_are_compatible: None.which_type
   deriving DecidableEq, Repr
 
 /-- One error group: primary location, class, the locations of its notes, and whether the
@@ -171,17 +186,19 @@ def tc : Expr → Res
   | .num _ => .pure .int
   | .boolc _ => .pure .bool
   | .enumv _ n => .pure (.enum n)
-  | .cphys l dl => ⟨.unset, [⟨l, .staticPhys, [dl], false⟩], none⟩
-  | .cvirt _ d => tc d
-  | .cother _ => ⟨.unset, [], some .constRefOther⟩
+  | .cphys l dl => ⟨.absent, [⟨l, .staticPhys, [dl], false⟩], none⟩
+  | .cvirt _ d =>
+    let r := tc d
+    { r with ty := r.ty.copied }
+  | .cother _ => ⟨.absent, [], some .constRefOther⟩
   | .lparam _ t => .pure t
-  | .lparamArr _ => ⟨.unset, [], some .arrayParamRef⟩
+  | .lparamArr _ => ⟨.absent, [], some .arrayParamRef⟩
   | .lphys _ t => .pure t
   | .lvirt _ d =>
     let r := tc d
     -- an unannotated read_transform is re-checked through the reference, and the messages
     -- of that re-check carry `expression.field_reference.path[0]` as their file name
-    if r.ty = .unset then { r with errs := r.errs.map Err.markBad } else r
+    ⟨r.ty.copied, if r.ty.annotated then r.errs else r.errs.map Err.markBad, r.crash⟩
   | .builtin _ b => .pure (if b then .bool else .int)
   | .bin l op a b =>
     let ra := tc a
@@ -189,8 +206,10 @@ def tc : Expr → Res
     let sub := ra.errs ++ rb.errs
     let cr := orCrash ra.crash rb.crash
     if op.isCmp then
-      if !cmpAcceptable op ra.ty then ⟨.unset, sub ++ [err a.loc (.cmpArg 0)], cr⟩
-      else if !cmpAcceptable op rb.ty then ⟨.unset, sub ++ [err b.loc (.cmpArg 1)], cr⟩
+      if ra.ty = .absent then ⟨.absent, sub, orCrash cr (some .cmpNone)⟩
+      else if !cmpAcceptable op ra.ty then ⟨.absent, sub ++ [err a.loc (.cmpArg 0)], cr⟩
+      else if rb.ty = .absent then ⟨.absent, sub, orCrash cr (some .cmpNone)⟩
+      else if !cmpAcceptable op rb.ty then ⟨.absent, sub ++ [err b.loc (.cmpArg 1)], cr⟩
       else ⟨.bool, sub ++ (if ra.ty = rb.ty then [] else [err l .cmpSame]), cr⟩
     else
       ⟨op.mono, sub ++ argErr op.mono 0 a ra.ty ++ argErr op.mono 1 b rb.ty, cr⟩
@@ -201,7 +220,9 @@ def tc : Expr → Res
     let sub := rc.errs ++ rt.errs ++ rf.errs
     let cr := orCrash rc.crash (orCrash rt.crash rf.crash)
     let e1 := if rc.ty = .bool then [] else [err c.loc .chCond]
-    if !rt.ty.isValue then ⟨.unset, sub ++ e1 ++ [err t.loc .chTrue], cr⟩
+    if rc.ty = .absent ∨ rt.ty = .absent then ⟨.absent, sub, orCrash cr (some .chNone)⟩
+    else if !rt.ty.isValue then ⟨.absent, sub ++ e1 ++ [err t.loc .chTrue], cr⟩
+    else if rf.ty = .absent then ⟨.absent, sub, orCrash cr (some .compatNone)⟩
     else ⟨rt.ty, sub ++ e1 ++ (if rt.ty = rf.ty then [] else [err l .chSame]), cr⟩
   | .fn l f args =>
     let rs := tcList args
@@ -328,7 +349,8 @@ def Ty.hasName : Ty → Bool
 
 /-- `which_type` only: two enumerations compare equal here, as coded. -/
 def sameWhich : Ty → Ty → Bool
-  | .int, .int | .bool, .bool | .enum _, .enum _ | .opaque, .opaque | .unset, .unset => true
+  | .int, .int | .bool, .bool | .enum _, .enum _ | .opaque, .opaque | .unset, .unset
+  | .absent, .absent => true
   | _, _ => false
 
 def passedArgs : Nat → List (Ty × Loc) → List Expr → PassRes
